@@ -459,6 +459,9 @@ class IndexHooks(FwdHooks):
                     data[ix[:d] + (ix[d] + lo,) + ix[d + 1:]] = v
                 lo += p.shape[d]
             return ST(parts[0].shape[:d] + (lo,) + parts[0].shape[d + 1:], data)
+        if dotted == "torch.stack" and args and isinstance(args[0], (list, tuple)) and not list(args[0]):
+            from ..interp import SimRaise
+            raise SimRaise("RuntimeError", "stack expects a non-empty TensorList", node, fi)
         if dotted == "torch.stack" and args and all(isinstance(p, ST) for p in args[0]):
             parts = list(args[0])
             d = int(kwargs.get("dim", args[1] if len(args) > 1 else 0))
